@@ -11,13 +11,16 @@ package verifier
 // expirationDate, credential revoked or not), a structure-aware mutation of one, a truncated body, hostile encodedList
 // values (empty, huge, bad base64, not gzip), other content, non-2xx, or a transport error.
 // Oracle: no panic through a nuts-node frame, no hang; after a verification the stored record is either what it was before
-// (modulo the clock shift the harness applied) or a record of the served body — a rejected refresh leaves it unchanged.
+// (modulo the clock shift the harness applied) — a rejected refresh leaves it unchanged — or a record of the document that was
+// just served with a 2xx status: same JSON value (not necessarily the same bytes), verifying, expiry column as in the document.
 
 import (
 	"bytes"
 	"compress/gzip"
 	"encoding/base64"
+	"encoding/json"
 	"fmt"
+	"reflect"
 	"strings"
 	"testing"
 	"time"
@@ -246,24 +249,77 @@ func c19SLRun(x *h.Ctx, c c19SLCase) {
 		if refreshed {
 			x.Classf("refresh:%s:%s", state, map[bool]string{true: "stored", false: "not-stored"}[after != nil && (before == nil || after.Raw != before.Raw || after.CreatedAt != before.CreatedAt)])
 		}
-		// the record is what it was, or a record of the served body
+		// The record is what it was (a refused refresh, or no refresh at all), or it is a record of the document the server
+		// just served: a 2xx answer whose JSON value is the stored one (representation aside: the node stores the decoded
+		// value's own bytes, so surrounding whitespace differs), which verifies, with the expiry column saying what the
+		// document says.
 		switch {
 		case after == nil && before == nil:
 		case after == nil:
 			x.Violate("statuslist-record-lost", "step %d: the stored status list record disappeared (answer %s)", i, s.Answer)
 			return
 		case before != nil && after.String() == before.String():
-		case after.Raw == string(body):
-			// a download that was accepted: must have been a 2xx answer
-			if status < 200 || status > 299 {
-				x.Violate("statuslist-stored-non-2xx", "step %d: a %d answer was stored", i, status)
+		default:
+			if why := c19SLAcceptable(v, after, status, body); why != "" {
+				x.Violate("statuslist-record-changed-to-something-not-served-or-not-valid", "step %d (answer %s, download=%v): the record changed, but %s\n before %s\n after  %s", i, s.Answer, refreshed, why, before, after)
 				return
 			}
-		default:
-			x.Violate("statuslist-record-changed-after-rejected-refresh", "step %d (answer %s, download=%v): record changed to something that is not the served body\n before %s\n after  %s", i, s.Answer, refreshed, before, after)
-			return
+			x.Class("refresh:accepted-document-is-the-served-one-and-verifies")
 		}
 	}
+}
+
+// c19SLAcceptable says why the new record cannot be the result of accepting the served answer ("" = it can).
+func c19SLAcceptable(v Verifier, rec *c19SLRow, status int, body []byte) string {
+	if status < 200 || status > 299 {
+		return fmt.Sprintf("the answer was HTTP %d", status)
+	}
+	dec := func(b []byte) (any, error) {
+		d := json.NewDecoder(bytes.NewReader(b))
+		d.UseNumber()
+		var out any
+		if err := d.Decode(&out); err != nil {
+			return nil, err
+		}
+		if d.More() {
+			return nil, fmt.Errorf("trailing data")
+		}
+		return out, nil
+	}
+	served, err := dec(body)
+	if err != nil {
+		return fmt.Sprintf("the served body is not one JSON value (%v)", err)
+	}
+	stored, err := dec([]byte(rec.Raw))
+	if err != nil {
+		return fmt.Sprintf("the stored raw document is not JSON (%v)", err)
+	}
+	if !reflect.DeepEqual(served, stored) {
+		return "the stored document is not the served JSON value"
+	}
+	cred, err := vc.ParseVerifiableCredential(rec.Raw)
+	if err != nil {
+		return fmt.Sprintf("the stored document does not parse as a credential (%v)", err)
+	}
+	if err := v.VerifySignature(*cred, nil); err != nil {
+		return fmt.Sprintf("the stored document does not verify (%v)", err)
+	}
+	// the expiry column: only judged where the document is unambiguous about it
+	if m, ok := stored.(map[string]any); ok {
+		_, hasUntil := m["validUntil"]
+		exp, hasExp := m["expirationDate"]
+		switch {
+		case !hasExp && !hasUntil && rec.Expires != nil:
+			return fmt.Sprintf("the document has no expirationDate but the record expires at %d", *rec.Expires)
+		case hasExp && !hasUntil:
+			if str, ok := exp.(string); ok {
+				if ts, err := time.Parse(time.RFC3339, str); err == nil && !ts.IsZero() && (rec.Expires == nil || *rec.Expires != ts.Unix()) {
+					return fmt.Sprintf("the document expires at %d but the record says %v", ts.Unix(), rec)
+				}
+			}
+		}
+	}
+	return ""
 }
 
 func TestVerif_C19_StatusListVerify(t *testing.T) {
